@@ -31,99 +31,142 @@ def joinComma : List Bytes → Bytes
   | [a] => a
   | a :: rest => a ++ lit "," ++ joinComma rest
 
-/-- `Printer.printAccrual` -/
-def printAccrual (text : Bytes) (a : Accrual) : Option Bytes := do
-  let iv ← a.interval.range.extract text
-  let d0 ← a.start.range.extract text
-  let d1 ← a.stop.range.extract text
-  let acc ← a.account.range.extract text
-  pure (lit "@accrue " ++ iv ++ lit " " ++ d0 ++ lit " " ++ d1 ++ lit " " ++ acc ++ lit "\n")
+/-! ### The arguments of the `Fprintf` calls: the extracted fields of a directive
 
-/-- `Printer.printPosting` followed by the `"\n"` that `printTransaction` writes after it -/
-def printPosting (text : Bytes) (padding : Nat) (b : Booking) : Option Bytes := do
+Go evaluates all `x.Extract()` arguments of a `Fprintf` before formatting, so every print function is
+"extract the fields (may panic), then render them". `…V` are the extracted fields, `view…` the extraction,
+`render…` the formatting. -/
+
+structure BookingV where
+  credit : Bytes
+  debit : Bytes
+  quantity : Bytes
+  commodity : Bytes
+  deriving DecidableEq, Repr
+
+structure BalanceV where
+  account : Bytes
+  quantity : Bytes
+  commodity : Bytes
+  deriving DecidableEq, Repr
+
+structure AccrualV where
+  interval : Bytes
+  start : Bytes
+  stop : Bytes
+  account : Bytes
+  deriving DecidableEq, Repr
+
+/-- the fields of a directive as byte strings -/
+inductive DirV where
+  | transaction (accrual : Option AccrualV) (performance : Option (List Bytes)) (date desc : Bytes)
+      (bookings : List BookingV)
+  | «open» (date account : Bytes)
+  | close (date account : Bytes)
+  | assertion (date : Bytes) (balances : List BalanceV)
+  | price (date commodity price target : Bytes)
+  | «include» (path : Bytes)
+  deriving DecidableEq, Repr
+
+def viewBooking (text : Bytes) (b : Booking) : Option BookingV := do
   let cr ← b.credit.range.extract text
   let db ← b.debit.range.extract text
   let q ← b.quantity.range.extract text
   let c ← b.commodity.range.extract text
-  pure (padRight padding cr ++ lit " " ++ padRight padding db ++ lit " " ++ padLeft 10 q ++ lit " " ++ c ++ lit "\n")
+  pure ⟨cr, db, q, c⟩
 
-/-- `Printer.printTransaction` -/
-def printTransaction (text : Bytes) (padding : Nat) (t : Transaction) : Option Bytes := do
-  let accr ← if !t.addons.accrual.range.empty then printAccrual text t.addons.accrual else pure []
-  let perf ← if !t.addons.performance.range.empty then do
-      let ts ← t.addons.performance.targets.mapM (fun c => c.range.extract text)
-      pure (lit "@performance(" ++ joinComma ts ++ lit ")\n")
-    else pure []
-  let date ← t.date.range.extract text
-  let desc ← t.description.content.extract text
-  let bookings ← t.bookings.mapM (printPosting text padding)
-  pure (accr ++ perf ++ date ++ lit " \"" ++ desc ++ lit "\"" ++ lit "\n" ++ bookings.flatten)
-
-/-- `Printer.printOpen` -/
-def printOpen (text : Bytes) (o : Open) : Option Bytes := do
-  let date ← o.date.range.extract text
-  let acc ← o.account.range.extract text
-  pure (date ++ lit " open " ++ acc)
-
-/-- `Printer.printClose` -/
-def printClose (text : Bytes) (c : Close) : Option Bytes := do
-  let date ← c.date.range.extract text
-  let acc ← c.account.range.extract text
-  pure (date ++ lit " close " ++ acc)
-
-/-- `Printer.printPrice` -/
-def printPrice (text : Bytes) (p : Price) : Option Bytes := do
-  let date ← p.date.range.extract text
-  let c ← p.commodity.range.extract text
-  let pr ← p.price.range.extract text
-  let t ← p.target.range.extract text
-  pure (date ++ lit " price " ++ c ++ lit " " ++ pr ++ lit " " ++ t)
-
-/-- `Printer.printInclude` -/
-def printInclude (text : Bytes) (i : Include) : Option Bytes := do
-  let p ← i.includePath.content.extract text
-  pure (lit "include \"" ++ p ++ lit "\"")
-
-def printBalanceFields (text : Bytes) (b : Balance) : Option Bytes := do
+def viewBalance (text : Bytes) (b : Balance) : Option BalanceV := do
   let acc ← b.account.range.extract text
   let q ← b.quantity.range.extract text
   let c ← b.commodity.range.extract text
-  pure (acc ++ lit " " ++ q ++ lit " " ++ c)
+  pure ⟨acc, q, c⟩
 
-/-- `Printer.printAssertion`: one balance on the same line, otherwise one per line -/
-def printAssertion (text : Bytes) (a : Assertion) : Option Bytes := do
-  let date ← a.date.range.extract text
-  match a.balances with
-  | [b] => do
-    let f ← printBalanceFields text b
-    pure (date ++ lit " balance" ++ lit " " ++ f)
-  | bs => do
-    let lines ← bs.mapM (fun b => do let f ← printBalanceFields text b; pure (f ++ lit "\n"))
-    pure (date ++ lit " balance" ++ lit "\n" ++ lines.flatten)
+def viewAccrual (text : Bytes) (a : Accrual) : Option AccrualV := do
+  let iv ← a.interval.range.extract text
+  let d0 ← a.start.range.extract text
+  let d1 ← a.stop.range.extract text
+  let acc ← a.account.range.extract text
+  pure ⟨iv, d0, d1, acc⟩
 
-/-- `Printer.printDirective` -/
+/-- the fields `printTransaction` extracts: the accrual if `!Accrual.Empty()`, the performance targets if
+`!Performance.Empty()`, date, description content, bookings -/
+def viewTransaction (text : Bytes) (t : Transaction) : Option DirV := do
+  let accr ← if !t.addons.accrual.range.empty then (viewAccrual text t.addons.accrual).map some else pure none
+  let perf ← if !t.addons.performance.range.empty then
+      (t.addons.performance.targets.mapM (fun (c : Commodity) => c.range.extract text)).map some
+    else pure none
+  let date ← t.date.range.extract text
+  let desc ← t.description.content.extract text
+  let bookings ← t.bookings.mapM (viewBooking text)
+  pure (.transaction accr perf date desc bookings)
+
+def viewDirective (text : Bytes) (d : Directive) : Option DirV :=
+  match d.body with
+  | .transaction t => viewTransaction text t
+  | .open o => do
+    let date ← o.date.range.extract text
+    let acc ← o.account.range.extract text
+    pure (.open date acc)
+  | .close c => do
+    let date ← c.date.range.extract text
+    let acc ← c.account.range.extract text
+    pure (.close date acc)
+  | .assertion a => do
+    let date ← a.date.range.extract text
+    let bs ← a.balances.mapM (viewBalance text)
+    pure (.assertion date bs)
+  | .price p => do
+    let date ← p.date.range.extract text
+    let c ← p.commodity.range.extract text
+    let pr ← p.price.range.extract text
+    let t ← p.target.range.extract text
+    pure (.price date c pr t)
+  | .include i => do
+    let p ← i.includePath.content.extract text
+    pure (.include p)
+
+/-- `Printer.printAccrual`: `"@accrue %s %s %s %s\n"` -/
+def renderAccrual (a : AccrualV) : Bytes :=
+  lit "@accrue " ++ a.interval ++ lit " " ++ a.start ++ lit " " ++ a.stop ++ lit " " ++ a.account ++ lit "\n"
+
+/-- `"@performance(%s)\n"` of the joined targets -/
+def renderPerformance (ts : List Bytes) : Bytes := lit "@performance(" ++ joinComma ts ++ lit ")\n"
+
+/-- `Printer.printPosting` (`"%-*s %-*s %10s %s"`) and the `"\n"` written after it -/
+def renderBooking (padding : Nat) (b : BookingV) : Bytes :=
+  padRight padding b.credit ++ lit " " ++ padRight padding b.debit ++ lit " " ++ padLeft 10 b.quantity ++ lit " " ++
+    b.commodity ++ lit "\n"
+
+/-- the fields of one balance: `"%s %s %s"` -/
+def renderBalance (b : BalanceV) : Bytes := b.account ++ lit " " ++ b.quantity ++ lit " " ++ b.commodity
+
+/-- `Printer.printDirective` on extracted fields -/
+def renderDir (padding : Nat) : DirV → Bytes
+  | .transaction accr perf date desc bookings =>
+    (match accr with | some a => renderAccrual a | none => []) ++
+    (match perf with | some ts => renderPerformance ts | none => []) ++
+    date ++ lit " \"" ++ desc ++ lit "\"" ++ lit "\n" ++ (bookings.map (renderBooking padding)).flatten
+  | .open date acc => date ++ lit " open " ++ acc
+  | .close date acc => date ++ lit " close " ++ acc
+  | .price date c p t => date ++ lit " price " ++ c ++ lit " " ++ p ++ lit " " ++ t
+  | .include p => lit "include \"" ++ p ++ lit "\""
+  | .assertion date bs =>
+    match bs with
+    | [b] => date ++ lit " balance" ++ lit " " ++ renderBalance b
+    | bs => date ++ lit " balance" ++ lit "\n" ++ (bs.map fun b => renderBalance b ++ lit "\n").flatten
+
+/-- `Printer.printDirective`: extract, then render; `none` = a slice bound was violated (Go would panic) -/
 def printDirective (text : Bytes) (padding : Nat) (d : Directive) : Option Bytes :=
-  match d.body with
-  | .transaction t => printTransaction text padding t
-  | .open o => printOpen text o
-  | .close c => printClose text c
-  | .assertion a => printAssertion text a
-  | .include i => printInclude text i
-  | .price p => printPrice text p
+  (viewDirective text d).map (renderDir padding)
 
-/-- the contribution of one directive to `Printer.Initialize` -/
-def paddingOf (text : Bytes) (d : Directive) : Option Nat :=
-  match d.body with
-  | .transaction t =>
-    t.bookings.foldlM (fun (m : Nat) b => do
-      let cr ← b.credit.range.extract text
-      let db ← b.debit.range.extract text
-      pure (max (max m (runeCount cr)) (runeCount db))) 0
-  | _ => some 0
+/-- the contribution of one directive to `Printer.Initialize` (rune counts of the credit and debit accounts) -/
+def paddingV : DirV → Nat
+  | .transaction _ _ _ _ bookings => bookings.foldl (fun m b => max (max m (runeCount b.credit)) (runeCount b.debit)) 0
+  | _ => 0
 
 /-- `Printer.Initialize`: the widest account (in runes) over all bookings of all transactions -/
 def initPadding (text : Bytes) (ds : List Directive) : Option Nat :=
-  ds.foldlM (fun (m : Nat) d => do let k ← paddingOf text d; pure (max m k)) 0
+  (ds.mapM (viewDirective text)).map fun vs => vs.foldl (fun m v => max m (paddingV v)) 0
 
 /-- `text[a:b]` with Go's bounds check -/
 def sliceChecked (text : Bytes) (a b : Nat) : Option Bytes :=
